@@ -673,7 +673,7 @@ def _reused_aux_dict(ck, hashtree, J):
     must be accepted: a rejected input may not survive anywhere (tree or caller-held arguments) and turn a later genuine
     validation into a rejection."""
     rng = ck.rng("reused-aux")
-    for n in list(range(1, 9)) + [13, 64]:
+    for n in list(range(2, 9)) + [1, 13, 64]:
         W = World(hashtree, rng, n)
         first = W.first
         preludes = [("root-only", ())]
